@@ -1,6 +1,6 @@
 (* C07 - incremental APIs are invariant under chunking, aliasing, copying and re-init. *)
 From AsconV Require Import Model.Macm Model.Noncem Proofs.SpongeP Proofs.AeadP Proofs.XofP Proofs.MacP Proofs.HkdfP
-  Proofs.NonceP Proofs.InplaceP Proofs.PermP Props.Properties_C01.
+  Proofs.NonceP Proofs.InplaceP Proofs.IncDecP Proofs.CopyReinitP Proofs.PermP Props.Properties_C01.
 Local Open Scope nat_scope.
 
 (* hash / XOF / XOFA / PRF (and KMAC, KDF, which use the XOF calls): absorbing a then b is
@@ -51,26 +51,102 @@ Theorem C07_hkdf : forall v key salt info reqs, v = vxof \/ v = vxofa ->
 Proof. intros v key salt info reqs Hx. exact (hkdf_stream Perm.perm perm_len v Hx key salt info reqs). Qed.
 Print Assumptions C07_hkdf.
 
-(* a copied state is the same value: it continues exactly like the original *)
-Theorem C07_copy : forall s, xof_copy s = s.
+(* ---- copies ------------------------------------------------------------------------------------------------
+   BY CONSTRUCTION: the model's objects are immutable records and the model of ascon_xof_copy / ascon_xofa_copy /
+   ascon_hash_copy / ascon_hasha_copy is the identity on them (Xofm.xof_copy s := s; it is not even extracted - the driver's
+   COPY stores the same value in a second slot).  The next statement therefore only restates that definition; that the C
+   copy (init + ascon_copy + count/mode) produces an object that behaves like this value is shown by the differential run
+   only (X .. COPY sessions with state dumps), not by a theorem. *)
+Theorem C07_copy_by_construction : forall s, xof_copy s = s.
 Proof. reflexivity. Qed.
-Print Assumptions C07_copy.
+Print Assumptions C07_copy_by_construction.
 
-(* re-initialising a used object = initialising a fresh one: the re-init functions return
-   the init value whatever the previous history left in the object *)
-Theorem C07_reinit_aead : forall v s npub k,
-  inc_start Perm.perm v (inc_reinit v s (Some npub) (Some k)) = inc_start Perm.perm v (inc_init v (Some npub) (Some k)).
-Proof. reflexivity. Qed.
-Print Assumptions C07_reinit_aead.
+(* What can be said beyond the definition, about objects that live side by side (Proofs/CopyReinitP.v: the driver's slot table
+   of hash / XOF / XOFA / PRF objects written in Coq; per-slot operations are the extracted xof_absorb / xof_squeeze / xof_pad;
+   XPut = any init or re-init form, XCopy, XFree): after ANY history h on any slots, a copy src -> dst
+   (1) continues exactly like the original: any continuation k of absorb / squeeze / pad calls (any sizes, empty ones included)
+       returns the same bytes on the copy as it would have on the original and ends in the same object value;
+   (2) and the two are independent: whatever is done to the copy (kd), the original afterwards (ks) returns what it would have
+       returned had no copy been taken; and with the roles exchanged.
+   The slot table itself is hand-written in ocaml/drv_xof.ml, not extracted from this definition. *)
+Theorem C07_copy_history : forall h src dst k kd ks, src <> dst ->
+  let st := fst (xrun Perm.perm h empty_store) in
+  let st1 := fst (xstep Perm.perm st (XCopy src dst)) in
+  (snd (xrun Perm.perm (map (XOn dst) k) st1) = snd (xrun Perm.perm (map (XOn src) k) st) /\
+   fst (xrun Perm.perm (map (XOn dst) k) st1) dst = fst (xrun Perm.perm (map (XOn src) k) st) src) /\
+  snd (xrun Perm.perm (map (XOn src) ks) (fst (xrun Perm.perm (map (XOn dst) kd) st1))) = snd (xrun Perm.perm (map (XOn src) ks) st) /\
+  snd (xrun Perm.perm (map (XOn dst) ks) (fst (xrun Perm.perm (map (XOn src) kd) st1))) = snd (xrun Perm.perm (map (XOn src) ks) st).
+Proof. exact (copy_history Perm.perm). Qed.
+Print Assumptions C07_copy_history.
 
-(* in-place = out-of-place for every left-to-right read-then-write block routine *)
+(* ---- re-initialisation ---------------------------------------------------------------------------------------
+   Incremental AEAD objects (the only family whose re-init has a model function of its own: inc_reinit keeps the old state
+   bytes as ascon*_aead_reinit does; for xof/hash/prf/hmac/kmac/kdf the driver maps REINIT to the init function, so "re-init =
+   init" is D-only there).
+   After ANY history (s is whatever an earlier history left in the object: state bytes, posn, key, nonce), for every form of
+   the arguments (nonce and key given or NULL), re-initialising and then running ANY session - any packets, encrypt or decrypt,
+   genuine or forged tags, any chunking - gives the same final object, the same nonce read-backs and the same outputs as a
+   fresh init followed by that session.
+   BY CONSTRUCTION of Aeadm.inc_start: every packet begins with inc_start, and the model's start_c builds the 40 state bytes
+   from zeros, never reading i_st; the proof is a case analysis and an unfolding.  The modelling decision that makes it so is
+   justified by C07_reinit_overwrite below. *)
+Theorem C07_reinit_aead_by_construction : forall v s npub k packets, packets <> [] ->
+  session_run Perm.perm v (inc_reinit v s npub k) packets = session_run Perm.perm v (inc_init v npub k) packets.
+Proof. intros v s npub k packets. exact (session_reinit_init Perm.perm v s npub k packets). Qed.
+Print Assumptions C07_reinit_aead_by_construction.
+
+(* the non-definitional part: *_aead_start does not zero the object's state, it overwrites IV at offset 0, the key at offset
+   |IV| and the nonce at offset 24 into whatever the previous history left there (and reinit leaves everything there).  For
+   every previous content of the 40 state bytes the result is IV || K || N - what start_c computes from zeros: nothing of an
+   earlier packet survives the start of the next one. *)
+Theorem C07_reinit_overwrite : forall v K N st, variant_ok v -> wf_kn v K N -> length st = 40 ->
+  set_at (set_at (set_at st 0 (v_iv v)) (length (v_iv v)) K) 24 N = v_iv v ++ K ++ N /\
+  set_at (set_at (set_at (zeros 40) 0 (v_iv v)) (length (v_iv v)) K) 24 N = v_iv v ++ K ++ N.
+Proof.
+  intros v K N st Hv [HK HN] Hl. destruct (variant_wf v Hv) as [H24 _]. rewrite <- HK in H24.
+  split; apply overwrite_any_state; auto; unfold zeros; apply repeat_length.
+Qed.
+Print Assumptions C07_reinit_overwrite.
+
+(* ---- in place ------------------------------------------------------------------------------------------------
+   C07_inplace is a statement about ABSTRACT cell lists (any cell type, any step function): a left-to-right routine that reads
+   cell i before it writes cell i computes the same with dst = src as with dst disjoint from src.  It is instantiated by
+   C07_inplace_blocks; on its own it says nothing about the library. *)
 Theorem C07_inplace : forall (C St : Type) (step : St -> C -> St * C) s buf,
   run_in C St step (length buf) 0 s buf = run_out C St step s buf.
 Proof. exact inplace_eq. Qed.
 Print Assumptions C07_inplace.
 
+(* The instance for the routine the incremental AEAD block calls are defined by (inc_encrypt_block / inc_decrypt_block =
+   duplex_c with bf_enc / bf_dec): running the model's byte-serial duplex step IN PLACE over a buffer - iteration i reads buf[i],
+   then overwrites buf[i] - from any block position leaves in the buffer exactly the output of duplex_c on the original
+   contents and reaches the same state.  Granularity is the byte; the C works on words/blocks (read the whole cell, then write
+   it), which the abstract theorem covers as well.  Aliasing as such (two pointers, one memory) is not expressible in the
+   value-passing model: the byte-range primitives with identical buffers are C08_ops_*, the block calls with out == in are
+   compared in the differential run (AI .. I lines). *)
+Theorem C07_inplace_blocks : forall v bf st pos buf, variant_ok v -> pos < v_rate v -> length st = 40 ->
+  run_in N (bytes * nat) (byte_step bf (Perm.perm (v_pb v)) (v_rate v)) (length buf) 0 (st, pos) buf =
+  duplex_c bf (Perm.perm (v_pb v)) (v_rate v) (st, pos) buf.
+Proof.
+  intros v bf st pos buf Hv. destruct (variant_wf v Hv) as [_ [Hr0 [Hr40 _]]].
+  exact (inplace_duplex bf (Perm.perm (v_pb v)) (v_rate v) 40 (f_len40 Perm.perm perm_len v) Hr0 Hr40 st pos buf).
+Qed.
+Print Assumptions C07_inplace_blocks.
+
 Example C07_nonvacuous :
   let m := map N.of_nat (seq 0 30) in
   xof_run Perm.perm vxofa (xof_init Perm.perm vxofa) [firstn 7 m; []; skipn 7 m] [3; 0; 14] =
-  xof_run Perm.perm vxofa (xof_init Perm.perm vxofa) [m] [17].
-Proof. vm_compute. reflexivity. Qed.
+  xof_run Perm.perm vxofa (xof_init Perm.perm vxofa) [m] [17] /\
+  (* a copy taken between two absorbs, in squeeze mode later: copy and original give the same 9 + 5 bytes, and they are not trivial *)
+  let h := [XPut 1 vxof (xof_init Perm.perm vxof); XOn 1 (LAbs (firstn 11 m)); XOn 1 (LSqz 3); XCopy 1 2; XOn 2 (LAbs m)] in
+  let st := fst (xrun Perm.perm h empty_store) in
+  snd (xrun Perm.perm [XCopy 1 3; XOn 3 (LSqz 9); XOn 1 (LPad); XOn 3 (LSqz 5)] st) =
+    [[]; snd (lstep Perm.perm (st 1) (LSqz 9)); []; skipn 9 (snd (lstep Perm.perm (st 1) (LSqz 14)))] /\
+  length (snd (lstep Perm.perm (st 1) (LSqz 14))) = 14 /\
+  (* re-init after a used object: state bytes differ from a fresh object, the session does not *)
+  let K := map N.of_nat (seq 0 16) in let N0 := map N.of_nat (seq 16 16) in
+  let used := fst (session_run Perm.perm a128 (inc_init a128 (Some N0) (Some K)) [PEnc [1%N] [m]]) in
+  i_st used <> zeros 40 /\
+  snd (session_run Perm.perm a128 (inc_reinit a128 used None (Some K)) [PEnc [] [firstn 9 m; skipn 9 m]]) =
+    [(repeat 0%N 15 ++ [1%N], OEnc (fst (encrypt_c Perm.perm a128 K (zeros 16) [] m)))].
+Proof. vm_compute. repeat split. discriminate. Qed.
